@@ -295,11 +295,13 @@ func RunIO(w *World, idx int) {
 		if r.Chance(6) || (w.Prop == "C16" && r.Chance(40)) {
 			w.ResizeOp()
 		}
-		if r.Chance(8) {
+		hang := w.Net && i == nops/2 && (w.Prop == "C15" || w.Prop == "C05")
+		if r.Chance(8) || hang {
 			fs, modes := w.Attached()
 			if len(fs) > 0 {
 				f := fs[r.Intn(len(fs))]
 				if modes[f] != types.ERR {
+					w.forceHang = hang
 					w.MonitorFail(f, r.Bool())
 					w.CheckSettled("monitorfail")
 				}
